@@ -192,6 +192,7 @@ func (ig *ingest) onEffect(e *Effect) {
 	ig.roundRules(e)
 	ig.moreGates(e)
 	ig.r3Gates(e)
+	ig.cacheBookkeeping(e)
 	switch {
 	case e.Kind == "call" && e.Name == "rawmessagesfilter.HandleConsensusMessage":
 		ig.deliver(e)
@@ -765,9 +766,9 @@ func (ig *ingest) ingNV(e *Effect, ev *Eval, m *Term) {
 	ev.Require("NV10", props("C07", "C08"), "every embedded vote's sender is a committee member", "net", ForAll(votes, k.Member(mid(vs))))
 	ev.Require("NV11.type", props("C07", "C08"), "every embedded vote's signed header is typed VIEW_CHANGE", "net", ForAll(votes, Eq(mtype(vh), k.ProtoConst("LEAN_HELIX_VIEW_CHANGE"))))
 	ev.Require("NV11.instance", props("C07", "C08"), "every embedded vote belongs to the NEW_VIEW's instance", "net", ForAll(votes, Eq(inst(vh), inst(H))))
-	ev.Require("NV12.view", props("C07", "C08"), "the embedded proposal is for the NEW_VIEW's view", "net", Eq(vw(PH), vw(H)))
-	ev.Require("NV12.height", props("C07", "C08"), "the embedded proposal is for the NEW_VIEW's height", "net", Eq(ht(PH), ht(H)))
-	ev.Require("NV12.instance", props("C07", "C08"), "the embedded proposal belongs to the NEW_VIEW's instance", "net", Eq(inst(PH), inst(H)))
+	ev.Require("NV12.view", props("C07", "C08", "C11"), "the embedded proposal is for the NEW_VIEW's view", "net", Eq(vw(PH), vw(H)))
+	ev.Require("NV12.height", props("C07", "C08", "C11"), "the embedded proposal is for the NEW_VIEW's height", "net", Eq(ht(PH), ht(H)))
+	ev.Require("NV12.instance", props("C07", "C08", "C11"), "the embedded proposal belongs to the NEW_VIEW's instance", "net", Eq(inst(PH), inst(H)))
 }
 
 // ---------------------------------------------------------------- PROOF: Succ(ValidatePreparedProof) for a non-empty proof
@@ -794,7 +795,7 @@ func runProof(a *Analyzer, r *Results) {
 	verify := func(ref, s *Term) *Atom {
 		return ErrNil(Call("interfaces.VerifyConsensusMessage", km, ht(ref), raw(ref), s))
 	}
-	pr := props("C08", "C11", "C01", "C07", "C04", "C09", "C05")
+	pr := props("C08", "C11", "C01", "C07", "C04", "C09", "C05", "C12")
 	nTrue := 0
 	w := a.NewWalker(func(e *Effect) {
 		if e.Kind != "return" || len(e.Args) != 1 {
